@@ -171,9 +171,10 @@ func newEnv() *env {
 		}
 		e.bsc[t] = c
 	}
-	// e.b: state object and recorded state hash disagree (CreateState replaces only the former), as after InitStateDB
-	// of a block whose hash was set from the wire: CreateStateWithPreviousBlock(e.b, …) then takes its mismatch branch
-	e.b.CreateState(baseDB, baseRoot)
+	// e.b: its state object (one change, root H0+k1) and its recorded state hash (H0+k1+k2) disagree — set through the
+	// exported field before anything runs. CreateStateWithPreviousBlock(e.b, …) and validateStateChangesRoot(e.b) then
+	// take their mismatch branches (they log the block's round), everything else works as before.
+	e.b.ClientState = stateWith(k1)
 	twin := mkBlock(5, 0, "h-b") // same hash, other object
 	twin.VerificationTickets = []*block.VerificationTicket{{VerifierID: "v9", Signature: "s9"}}
 	x := mkBlock(5, 0, "h-x") // same rank, other hash
@@ -458,7 +459,10 @@ func runScenario(idx int, a, b string, iters int) {
 		run := func(d driver, t *block.Block, off int) {
 			defer wg.Done()
 			<-start
-			for i := 0; i < iters; i++ {
+			// at least `iters` calls and at least 4 ms (cheap entries would otherwise be done before the other
+			// goroutines have started); time.Now is not a synchronisation for the race detector
+			t0 := time.Now()
+			for i := 0; i < iters || (time.Since(t0) < 4*time.Millisecond && i < iters*200); i++ {
 				func() {
 					defer func() {
 						if r := recover(); r != nil {
